@@ -112,4 +112,5 @@ func Gen(run *vlib.Run, seed uint64, tier string) {
 	gen4(run, r.Fork("f4"), tier)
 	genSmall(run, r.Fork("f0f6"), tier)
 	genTable(run, r.Fork("table"), tier)
+	genGetSub(run, r.Fork("getsub"), tier)
 }
